@@ -517,3 +517,32 @@ func TestC07(t *testing.T) {
 		}
 	})
 }
+
+// TestC07Port443 covers the "unless that is 443" clause: one shard binds
+// 127.0.0.1:443 (skipped and counted if that is not possible).
+func TestC07Port443(t *testing.T) {
+	cc := coll("C07")
+	if ev.Replaying() || ev.Shard() != 0 {
+		t.Skip()
+	}
+	c := C07Case{Listen: "127.0.0.1:443", Reqs: []C07Req{{HTTP10: true, SNI: "sni.example"}, {HTTP10: true, SNI: "other.test", Header: ""}, {Host: "h.example", SNI: "sni.example"}}}
+	s, err := Start(Cfg{Listen: c.Listen})
+	if err != nil {
+		cc.Skipped("cannot-bind-port-443")
+		t.Skip("cannot bind 443: " + err.Error())
+	}
+	s.Stop()
+	k, w, cl := runC07(t, c)
+	canon, _ := json.Marshal(c)
+	cc.Case(string(canon), true, "listen-port-443")
+	for kk, v := range cl {
+		cc.Class(kk, v)
+	}
+	if k == "HARNESS" {
+		cc.Inconclusive(w)
+		t.Skip(w)
+	}
+	if k != "" {
+		t.Fatal(cc.Violation("TestC07", k, w, c, nil))
+	}
+}
